@@ -201,6 +201,25 @@ def check_peaks(case, rec=None):
     ok, g2 = guard(transform.compute_g_vectors, tth, eta, om, wv, 0.0, 0.0)
     if ok and np.abs(np.sqrt((np.asarray(g2) ** 2).sum(axis=0)) - np.sqrt((g0 * g0).sum(axis=0))).max() > tol:
         fails.append(fail("invariance", "|g| depends on wedge/chi", route="compute_g_vectors"))
+    # the documented use of cached k-vectors: the same k array rotated to several omega sets
+    ok, kv = guard(transform.compute_k_vectors, tth, eta, wv)
+    if ok:
+        kv = np.asarray(kv, float)
+        kkeep = kv.copy()
+        ok, ga = guard(transform.compute_g_from_k, kv, om, wedge, chi)
+        ok2, gb = guard(transform.compute_g_from_k, kv, om + delta, wedge, chi)
+        ok3, gc = guard(transform.compute_g_from_k, kv, om, wedge, chi)
+        if ok and ok2 and ok3:
+            if not np.array_equal(kv, kkeep):
+                fails.append(fail("inputs", "compute_g_from_k modified the k-vectors it was given (wedge %.3f chi %.3f)" %
+                                  (wedge, chi), route="compute_g_from_k"))
+            if np.abs(np.asarray(ga) - g0).max() > tol or np.abs(np.asarray(gc) - g0).max() > tol or \
+                    np.abs(np.asarray(gb) - Rm @ g0).max() > tol * 10:
+                fails.append(fail("rigid", "compute_g_from_k on one cached k array: first, shifted-omega and repeated "
+                                  "calls are not g, Rz(-d).g, g (wedge %.3f chi %.3f)" % (wedge, chi),
+                                  route="compute_g_from_k"))
+        else:
+            fails.append(exc_failure("compute_g_from_k", ga if not ok else (gb if not ok2 else gc)))
     # C route from lab coordinates of a point on the scattered ray, no translation
     L = rng.uniform(1e4, 1e6, n)
     xyz = np.array([np.cos(np.radians(tth)), -np.sin(np.radians(tth)) * np.sin(np.radians(eta)),
